@@ -518,4 +518,228 @@ theorem core_runCall (cfg : Cfg) (h : FND cfg) (k : Kind) (x : Call) (s : St) (h
   | pg => exact Uft.C05.restored_call_pg cfg h.fast h.fixd (fnd_nofinish cfg h) x s (Or.inl hov)
   | cyg => exact Uft.C05.restored_call cfg h.fast (fnd_nofinish cfg h) x s (Or.inl hov)
 
+def evsOf (R : RCfg) (E : Env) (d : Nat) : Option Call → List Rec
+  | some x' => specCall R E d x'
+  | none => []
+
+theorem specCalls_nil (R : RCfg) (E : Env) (d : Nat) : specCalls R E d .nil = [] := rfl
+
+theorem isNil_eq_nil (xs : Calls) (h : Calls.isNil xs = true) : xs = .nil := by
+  cases xs with
+  | nil => rfl
+  | cons a b => simp [Calls.isNil] at h
+
+/-- what one call adds to the recorded stream, given what its callees added -/
+theorem rec_node (cfg : Cfg) (h : FND cfg) (k : Kind) (f t0 t1 : Nat) (kids : Calls) (s : St) (E : Env) (d : Nat)
+    (hr : RRel cfg s E d) (hlen : s.frames.length < cfg.maxStack) (ht : t0 < t1)
+    (hshort : ¬ (t1 - t0 > cfg.threshold) →
+      pruneCalls (RCfg.ofRecord cfg) true cfg.threshold kids = .nil)
+    (ih : ∀ (s1 : St) (E1 : Env) (d1 : Nat), RRel cfg s1 E1 d1 → s1.frames.length ≤ s.frames.length + 1 →
+      (runCalls cfg k s1 kids).out = s1.out ++
+          (if specCalls (RCfg.ofRecord cfg) E1 d1 (pruneCalls (RCfg.ofRecord cfg) true cfg.threshold kids) = [] then []
+           else pend s1.frames) ++
+          specCalls (RCfg.ofRecord cfg) E1 d1 (pruneCalls (RCfg.ofRecord cfg) true cfg.threshold kids) ∧
+      (runCalls cfg k s1 kids).frames =
+          (if specCalls (RCfg.ofRecord cfg) E1 d1 (pruneCalls (RCfg.ofRecord cfg) true cfg.threshold kids) = []
+           then s1.frames else mark s1.frames) ∧
+      RRel cfg (runCalls cfg k s1 kids) E1 d1) :
+    (runCall cfg k s (.node f t0 t1 kids)).out = s.out ++
+        (if evsOf (RCfg.ofRecord cfg) E d (pruneCall (RCfg.ofRecord cfg) true cfg.threshold (.node f t0 t1 kids)) = []
+         then [] else pend s.frames) ++
+        evsOf (RCfg.ofRecord cfg) E d (pruneCall (RCfg.ofRecord cfg) true cfg.threshold (.node f t0 t1 kids)) ∧
+    (runCall cfg k s (.node f t0 t1 kids)).frames =
+        (if evsOf (RCfg.ofRecord cfg) E d (pruneCall (RCfg.ofRecord cfg) true cfg.threshold (.node f t0 t1 kids)) = []
+         then s.frames else mark s.frames) ∧
+    RRel cfg (runCall cfg k s (.node f t0 t1 kids)) E d := by
+  obtain ⟨eo, erel, eshape⟩ := entry_fnd cfg h k s E d f t0 hr hlen
+  have hcore := core_runCall cfg h k (.node f t0 t1 kids) s hr.over
+  have ht1 : t1 ≠ 0 := by omega
+  rw [pruneCall_fnd cfg h]
+  generalize hks : pruneCalls (RCfg.ofRecord cfg) true cfg.threshold kids = ks at ih hshort
+  generalize hv : visit (RCfg.ofRecord cfg) E f = v at eo erel eshape
+  obtain ⟨vis, Ek⟩ := v
+  simp only at erel eshape
+  have hspecN : specCall (RCfg.ofRecord cfg) E d (.node f t0 t1 ks) =
+      (if vis then [{ time := t0, type := 0, depth := d, addr := f }] ++
+                   specCalls (RCfg.ofRecord cfg) Ek (d + 1) ks ++ [{ time := t1, type := 1, depth := d, addr := f }]
+       else specCalls (RCfg.ofRecord cfg) Ek d ks) := by
+    simp only [specCall, hv]
+  have hev : evsOf (RCfg.ofRecord cfg) E d
+        (if (decide (t1 - t0 > cfg.threshold) || !Calls.isNil ks) = true then some (.node f t0 t1 ks) else none) =
+      (if vis then
+         (if (decide (t1 - t0 > cfg.threshold) || !Calls.isNil ks) = true then
+            [{ time := t0, type := 0, depth := d, addr := f }] ++ specCalls (RCfg.ofRecord cfg) Ek (d + 1) ks ++
+              [{ time := t1, type := 1, depth := d, addr := f }]
+          else [])
+       else specCalls (RCfg.ofRecord cfg) Ek d ks) := by
+    by_cases hkeep : (decide (t1 - t0 > cfg.threshold) || !Calls.isNil ks) = true
+    · simp only [hkeep, ↓reduceIte, evsOf, hspecN]
+    · simp only [hkeep, Bool.false_eq_true, ↓reduceIte, evsOf]
+      have hn : Calls.isNil ks = true := by
+        cases hk : Calls.isNil ks with
+        | true => rfl
+        | false => simp [hk] at hkeep
+      rw [isNil_eq_nil ks hn]
+      cases vis <;> simp [specCalls_nil]
+  rw [hev]
+  have hnilOf : ∀ (E' : Env) (d' : Nat), specCalls (RCfg.ofRecord cfg) E' d' ks ≠ [] → Calls.isNil ks = false := by
+    intro E' d' hne
+    cases hk : Calls.isNil ks with
+    | false => rfl
+    | true => rw [isNil_eq_nil ks hk] at hne; exact absurd rfl hne
+  simp only [runCall]
+  generalize hs1 : (entry cfg k s f t0).1 = s1 at eo erel eshape
+  generalize htook : (entry cfg k s f t0).2 = took at eshape
+  rcases eshape with ⟨htk, F, hfr, hnr, hw, hdis, htrc, hcal, hend, haddr, hdep, hstart⟩ | ⟨htk, hfr, hvis⟩
+  · -- a frame was pushed
+    subst htk
+    simp only [↓reduceIte]
+    obtain ⟨ko, kf, krel⟩ := ih s1 Ek (if vis then d + 1 else d) erel (by rw [hfr]; simp)
+    generalize hs2 : runCalls cfg k s1 kids = s2 at ko kf krel
+    have hen2 : (exit cfg s2 t1).enabled = true := by rw [exit_enabled]; exact krel.en
+    have hrel : RRel cfg (exit cfg s2 t1) E d := by
+      have : runCall cfg k s (.node f t0 t1 kids) = exit cfg s2 t1 := by
+        simp only [runCall, hs1, htook, ↓reduceIte, hs2]
+      rw [← this]
+      exact rrel_of_core cfg s _ E d hcore (by rw [this]; exact hen2) hr
+    cases vis with
+    | false =>
+      -- not shown: a NORECORD frame, transparent for the lazy writer
+      simp only [Bool.not_false] at hnr
+      obtain ⟨p1, p2⟩ := pend_cons_skip F s.frames hw hnr
+      simp only [Bool.false_eq_true, ↓reduceIte] at ko kf ⊢
+      by_cases hek : specCalls (RCfg.ofRecord cfg) Ek d ks = []
+      · simp only [hek, ↓reduceIte, List.append_nil] at ko kf ⊢
+        have hx := exit_fnd cfg h s2 F s.frames t1 (by rw [kf, hfr]) krel.over krel.en krel.time hdis htrc ht1
+        simp only [hnr, Bool.true_or, ↓reduceIte, Bool.not_true, Bool.false_and, Bool.false_eq_true] at hx
+        exact ⟨by rw [hx.1, ko, eo], hx.2, hrel⟩
+      · simp only [hek, ↓reduceIte] at ko kf ⊢
+        have hx := exit_fnd cfg h s2 F (mark s.frames) t1 (by rw [kf, hfr, p2]) krel.over krel.en krel.time hdis
+          htrc ht1
+        simp only [hnr, Bool.true_or, ↓reduceIte, Bool.not_true, Bool.false_and, Bool.false_eq_true] at hx
+        exact ⟨by rw [hx.1, ko, eo, hfr, p1], hx.2, hrel⟩
+    | true =>
+      -- shown: the frame's ENTRY is owed until something below it, or the call itself, is written
+      simp only [Bool.not_true] at hnr
+      obtain ⟨p1, p2⟩ := pend_cons_vis F s.frames hw hnr hdis
+      have hst : F.start = t0 := hstart rfl
+      have hER : entryRec F = { time := t0, type := 0, depth := d, addr := f } := by
+        simp [entryRec, hst, hdep, haddr]
+      simp only [↓reduceIte] at ko kf ⊢
+      by_cases hek : specCalls (RCfg.ofRecord cfg) Ek (d + 1) ks = []
+      · simp only [hek, ↓reduceIte, List.append_nil] at ko kf ⊢
+        have hx := exit_fnd cfg h s2 F s.frames t1 (by rw [kf, hfr]) krel.over krel.en krel.time hdis htrc ht1
+        simp only [hnr, hw, Bool.false_or, Bool.or_false, Bool.not_false, Bool.true_and, Bool.and_true,
+          Bool.false_eq_true, ↓reduceIte, hst] at hx
+        by_cases hdur : t1 - t0 > cfg.threshold
+        · simp only [hdur, decide_true, Bool.not_true, Bool.false_eq_true, ↓reduceIte, Bool.true_or] at hx ⊢
+          refine ⟨?_, ?_, hrel⟩
+          · rw [hx.1, ko, eo, hER, hdep, haddr]; simp [List.append_assoc]
+          · rw [hx.2]; simp
+        · have hkn := hshort hdur
+          simp only [hdur, decide_false, Bool.not_false, ↓reduceIte, Bool.false_eq_true, hkn, Calls.isNil,
+            Bool.not_true, Bool.or_self, List.append_nil] at hx ⊢
+          exact ⟨by rw [hx.1, ko, eo], hx.2, hrel⟩
+      · simp only [hek, ↓reduceIte] at ko kf ⊢
+        have hnil := hnilOf _ _ hek
+        have hx := exit_fnd cfg h s2 { F with written := true } (mark s.frames) t1 (by rw [kf, hfr, p2])
+          krel.over krel.en krel.time hdis htrc ht1
+        simp only [hnr, Bool.or_true, Bool.not_true, Bool.or_false, Bool.false_eq_true, ↓reduceIte,
+          Bool.and_false, List.nil_append] at hx
+        simp only [hnil, Bool.not_false, Bool.or_true, ↓reduceIte]
+        refine ⟨?_, ?_, hrel⟩
+        · rw [hx.1, ko, eo, hfr, p1, hER, hdep, haddr]; simp [List.append_assoc]
+        · rw [hx.2]; simp
+  · -- -pg hook that did not take the call: no frame, nothing to undo
+    subst htk
+    subst hvis
+    simp only [Bool.false_eq_true, ↓reduceIte] at erel ⊢
+    obtain ⟨ko, kf, krel⟩ := ih s1 Ek d erel (by rw [hfr]; omega)
+    have hrun : runCall cfg k s (.node f t0 t1 kids) = runCalls cfg k s1 kids := by
+      simp only [runCall, hs1, htook, Bool.false_eq_true, ↓reduceIte]
+    have hrel : RRel cfg (runCalls cfg k s1 kids) E d := by
+      rw [← hrun]
+      exact rrel_of_core cfg s _ E d hcore (by rw [hrun]; exact krel.en) hr
+    exact ⟨by rw [ko, eo, hfr], by rw [kf, hfr], hrel⟩
+
+theorem specCalls_pruneCalls_cons (R : RCfg) (thr : Nat) (E : Env) (d : Nat) (x : Call) (rest : Calls) :
+    specCalls R E d (pruneCalls R true thr (.cons x rest)) =
+      evsOf R E d (pruneCall R true thr x) ++ specCalls R E d (pruneCalls R true thr rest) := by
+  simp only [pruneCalls]
+  cases pruneCall R true thr x with
+  | none => simp [evsOf]
+  | some x' => simp [evsOf, specCalls]
+
+mutual
+theorem rec_call (cfg : Cfg) (h : FND cfg) (k : Kind) : ∀ (x : Call) (s : St) (E : Env) (d : Nat),
+    RRel cfg s E d → s.frames.length + x.height ≤ cfg.maxStack → Call.nestOK x →
+    (runCall cfg k s x).out = s.out ++
+        (if evsOf (RCfg.ofRecord cfg) E d (pruneCall (RCfg.ofRecord cfg) true cfg.threshold x) = [] then []
+         else pend s.frames) ++
+        evsOf (RCfg.ofRecord cfg) E d (pruneCall (RCfg.ofRecord cfg) true cfg.threshold x) ∧
+    (runCall cfg k s x).frames =
+        (if evsOf (RCfg.ofRecord cfg) E d (pruneCall (RCfg.ofRecord cfg) true cfg.threshold x) = [] then s.frames
+         else mark s.frames) ∧
+    RRel cfg (runCall cfg k s x) E d
+  | .node f t0 t1 kids, s, E, d, hr, hh, hn => by
+    simp only [Call.height] at hh
+    simp only [Call.nestOK] at hn
+    exact rec_node cfg h k f t0 t1 kids s E d hr (by omega) hn.1
+      (fun hd => prune_short_calls cfg h cfg.threshold kids (allDurLe_mono _ _ (by omega) kids hn.2))
+      (fun s1 E1 d1 hr1 hl => rec_calls cfg h k kids s1 E1 d1 (t1 - t0) hr1 (by omega) hn.2)
+theorem rec_calls (cfg : Cfg) (h : FND cfg) (k : Kind) : ∀ (xs : Calls) (s : St) (E : Env) (d n : Nat),
+    RRel cfg s E d → s.frames.length + xs.height ≤ cfg.maxStack → Calls.allDurLe n xs →
+    (runCalls cfg k s xs).out = s.out ++
+        (if specCalls (RCfg.ofRecord cfg) E d (pruneCalls (RCfg.ofRecord cfg) true cfg.threshold xs) = [] then []
+         else pend s.frames) ++
+        specCalls (RCfg.ofRecord cfg) E d (pruneCalls (RCfg.ofRecord cfg) true cfg.threshold xs) ∧
+    (runCalls cfg k s xs).frames =
+        (if specCalls (RCfg.ofRecord cfg) E d (pruneCalls (RCfg.ofRecord cfg) true cfg.threshold xs) = []
+         then s.frames else mark s.frames) ∧
+    RRel cfg (runCalls cfg k s xs) E d
+  | .nil, s, E, d, n, hr, _, _ => by
+    simp [runCalls, pruneCalls, specCalls, hr]
+  | .cons x rest, s, E, d, n, hr, hh, hn => by
+    simp only [Calls.height] at hh
+    simp only [Calls.allDurLe] at hn
+    obtain ⟨xo, xf, xr⟩ := rec_call cfg h k x s E d hr (by omega) hn.2.1
+    have hlen : (runCall cfg k s x).frames.length = s.frames.length := by
+      rw [xf]; split
+      · rfl
+      · simp only [mark]
+        have := congrArg List.length (flushBelow_core s.frames)
+        simpa using this
+    obtain ⟨ro, rf, rr⟩ := rec_calls cfg h k rest (runCall cfg k s x) E d n xr (by rw [hlen]; omega) hn.2.2
+    simp only [runCalls]
+    rw [specCalls_pruneCalls_cons]
+    generalize evsOf (RCfg.ofRecord cfg) E d (pruneCall (RCfg.ofRecord cfg) true cfg.threshold x) = ex at xo xf
+    generalize specCalls (RCfg.ofRecord cfg) E d (pruneCalls (RCfg.ofRecord cfg) true cfg.threshold rest) = er
+      at ro rf
+    refine ⟨?_, ?_, rr⟩
+    · rw [ro, xo, xf]
+      by_cases hx : ex = []
+      · subst hx; simp
+      · by_cases hre : er = []
+        · subst hre; simp [hx]
+        · simp [hx, hre, pend_mark, List.append_assoc]
+    · rw [rf, xf]
+      by_cases hx : ex = []
+      · subst hx; simp
+      · by_cases hre : er = []
+        · subst hre; simp [hx]
+        · simp [hx, hre, mark_mark]
+end
+
+/-- C07, record side: what the hooks write for a forest under -F / -N / -D / -t is the
+    documented selection (with the record-time comparison `>` for -t) -/
+theorem record_out (cfg : Cfg) (h : FND cfg) (k : Kind) (cs : Calls) (n : Nat)
+    (hh : cs.height ≤ cfg.maxStack) (hn : Calls.allDurLe n cs) :
+    (runCalls cfg k (St.init cfg) cs).out = spec (RCfg.ofRecord cfg) true cs := by
+  have hr : RRel cfg (St.init cfg) (Env.init (RCfg.ofRecord cfg)) 0 := by
+    constructor <;> simp [St.init, Env.init, RCfg.ofRecord, h.minSize, h.en]
+  obtain ⟨o, _, _⟩ := rec_calls cfg h k cs (St.init cfg) (Env.init (RCfg.ofRecord cfg)) 0 n hr
+    (by simp [St.init]; exact hh) hn
+  rw [o]
+  simp [St.init, pend, flushBelow, spec, RCfg.ofRecord]
+
 end Uft.Fstack
